@@ -199,6 +199,7 @@ class Execution:
         faultfs.reset_tempnames()
         self.fs = faultfs.FaultFS(self.root, self.tmpdir)
         self.handle_modes = {}
+        self.handle_paths = {}
         self.handles = {}          # hid -> (real handle | None, model handle | None, binary)
         self.cwd = self.root
         self.n_finalise = 0
@@ -268,6 +269,13 @@ class Execution:
                 raise Violation('plain-read', expected=expected[1][:60], actual=data[:60], detail=rel)
             return
         self.handles[hid] = (got[1], expected[1], binary)
+        self.handle_paths[hid] = rel
+        if sum(1 for h in self.handles if self.handle_paths.get(h) == rel) > 1:
+            # several handles open on one pending path at the same time: whose write wins is the
+            # business of the OS file-position rules, not of the statement (DESIGN.md section 7)
+            entry = self.model.entry(rel)
+            if entry is not None:
+                entry['weak'] = True
 
     def op_handle(self, op, hid, *args):
         if hid not in self.handles:
